@@ -2,16 +2,17 @@
 
 Usage:  python -m vlib.drivers.c38_driver <batch.json>
 
-batch = {"jobs": [spec, ...], "timeout": seconds per job}; every job runs in its own
-process forked from a pristine zygote (eko imported, failpoints installed, nothing run)
-and leaves <workdir>/result.json (or <workdir>/driver.err).
+batch = {"jobs": [spec, ...], "timeout": seconds per job, "group": jobs per forked child};
+jobs run in processes forked from a pristine zygote (eko imported, failpoints installed,
+nothing run) and leave <workdir>/result.json (or <workdir>/driver.err).
 
 spec = {
   "workload": "solve" | "user" | "edit" | "copy",
   "workdir":  scratch directory owned by this job (TMPDIR is redirected into it),
+  "outdir":   optional directory for the target archive (e.g. on another file system),
   "seed_archive": path of an existing complete archive (edit workload only),
   "order": [1, 0],
-  "run1":  [ {"ordinal": k, "mode": "before"|"partial"|"after", "kind": "error"|"interrupt"}, ... ],
+  "run1":  [ {"ordinal": k, "mode": "before"|"partial"|"after", "kind": "error"|"interrupt"|"sysexit"}, ... ],
   "retry": null | [ ...same... ]      # faults injected while re-running on the same path
   "rerun": true|false                 # finally run the workload once more without faults
 }
@@ -125,6 +126,8 @@ class FP:
     def exc(site, fault):
         if fault.get("kind") == "interrupt":
             return KeyboardInterrupt(f"injected interrupt at {site}")
+        if fault.get("kind") == "sysexit":
+            return SystemExit(f"injected SystemExit at {site}")
         if site in COMPUTE_SITES:
             return InjectedComputeError(f"injected failure in {site}")
         if site == "user-code":
@@ -232,7 +235,7 @@ def install(srcroot):
     for name in ("save", "savez", "savez_compressed"):
         _wrap(np, name, f"np.{name}")
     _wrap(lz4.frame, "compress", "lz4.frame.compress")
-    for name in ("dump", "safe_dump", "dump_all", "safe_dump_all"):
+    for name in ("dump", "safe_dump"):
         _wrap(yaml, name, f"yaml.{name}")
     _wrap(tarfile.TarFile, "add", "TarFile.add", lambda *a, **k: k.get("arcname") or (a[2] if len(a) > 2 else a[1]))
     _wrap(tarfile.TarFile, "addfile", "TarFile.addfile", lambda *a, **k: getattr(a[1], "name", None))
@@ -328,7 +331,7 @@ def wl_copy(path, order):
     """Deep copy of an open (read-only) EKO to a new archive path."""
     from eko.io.struct import EKO
 
-    src = pathlib.Path(path).parent.parent / "seed-copy.tar"
+    src = pathlib.Path.cwd() / "seed-copy.tar"  # the job's work directory
     with EKO.read(src) as eko:
         user_point("opened")
         eko.deepcopy(pathlib.Path(path))
@@ -385,7 +388,7 @@ def run_phase(name, plan, fn, target, order):
         res["exc_type"] = type(e).__name__
         res["exc"] = str(e)[:300]
         res["injected"] = isinstance(e, (InjectedIOError, InjectedComputeError, InjectedUserError)) or (
-            isinstance(e, KeyboardInterrupt) and "injected" in str(e)
+            isinstance(e, (KeyboardInterrupt, SystemExit)) and "injected" in str(e)
         )
         res["tb"] = traceback.format_exc()[-1800:]
     finally:
@@ -400,7 +403,8 @@ def run_one(spec):
     """Run one injection spec in *this* process (a fresh fork of the pristine zygote)."""
     work = pathlib.Path(spec["workdir"])
     tmp = work / "tmp"
-    out = work / "out"
+    # the output directory may live on another file system than the temporary directory
+    out = pathlib.Path(spec["outdir"]) if spec.get("outdir") else work / "out"
     tmp.mkdir(parents=True, exist_ok=True)
     out.mkdir(parents=True, exist_ok=True)
     os.environ["TMPDIR"] = str(tmp)
@@ -415,6 +419,7 @@ def run_one(spec):
     fn = WORKLOADS[spec["workload"]]
     order = spec.get("order", [1, 0])
     result = dict(spec=spec, srcroot=fp.srcroot, phases=[])
+    result["devices"] = dict(out=os.stat(out).st_dev, tmp=os.stat(tmp).st_dev)
     result["initial_state"] = state(target)
     r1 = run_phase("run1", spec.get("run1") or [], fn, target, order)
     result["phases"].append(r1)
@@ -436,9 +441,15 @@ def run_one(spec):
 
 
 def main(batch_path):
-    """Zygote: import the code under test and install the failpoints once, then run every
-    injection of the batch in its own forked child (no workload ever runs in the zygote,
-    so every child starts from the state of a freshly started interpreter)."""
+    """Zygote: import the code under test and install the failpoints once, then run the
+    injections of the batch in forked children (no workload ever runs in the zygote, so
+    every child starts from the state of a freshly started interpreter).
+
+    ``batch["group"]`` injections share one child (process creation costs ~0.5 s on the
+    verification box); each has its own work/tmp/out directories and its own failpoint
+    counters.  The parent re-runs every injection that shows a violation alone
+    (group = 1) before reporting it, so sharing a child can never produce an alarm.
+    """
     import time
 
     batch = json.loads(_real_open(batch_path).read())
@@ -450,42 +461,58 @@ def main(batch_path):
     srcroot = os.path.dirname(os.path.dirname(os.path.abspath(eko.__file__))) + "/"
     install(srcroot)
     timeout = float(batch.get("timeout", 300))
-    for spec in batch["jobs"]:
-        work = pathlib.Path(spec["workdir"])
-        work.mkdir(parents=True, exist_ok=True)
+    group = max(1, int(batch.get("group", 1)))
+    jobs = batch["jobs"]
+    for g0 in range(0, len(jobs), group):
+        specs = jobs[g0 : g0 + group]
+        for spec in specs:
+            pathlib.Path(spec["workdir"]).mkdir(parents=True, exist_ok=True)
         sys.stdout.flush()
         sys.stderr.flush()
         pid = os.fork()
         if pid == 0:
             code = 0
             try:
-                run_one(spec)
-            except BaseException:
-                code = 7
-                try:
-                    with _real_open(work / "driver.err", "w") as fd:
-                        fd.write(traceback.format_exc()[-3000:])
-                except BaseException:
-                    pass
+                for spec in specs:
+                    work = pathlib.Path(spec["workdir"])
+                    try:
+                        fp.hits = []
+                        fp.stop()
+                        run_one(spec)
+                    except BaseException:
+                        code = 7
+                        try:
+                            with _real_open(work / "driver.err", "w") as fd:
+                                fd.write(traceback.format_exc()[-3000:])
+                        except BaseException:
+                            pass
             finally:
                 os._exit(code)
         t0 = time.time()
-        status = None
         while True:
-            done, st = os.waitpid(pid, os.WNOHANG)
+            done, _st = os.waitpid(pid, os.WNOHANG)
             if done:
-                status = st
                 break
-            if time.time() - t0 > timeout:
+            if time.time() - t0 > timeout * len(specs):
                 try:
                     os.kill(pid, 9)
                 except OSError:
                     pass
                 os.waitpid(pid, 0)
-                with _real_open(work / "driver.err", "w") as fd:
-                    fd.write("timeout")
+                for spec in specs:
+                    work = pathlib.Path(spec["workdir"])
+                    if not (work / "result.json").exists():
+                        with _real_open(work / "driver.err", "w") as fd:
+                            fd.write("timeout")
                 break
-            time.sleep(0.02)
+            time.sleep(0.01)
+        # keep only the reports of the jobs
+        for spec in specs:
+            work = pathlib.Path(spec["workdir"])
+            shutil.rmtree(work / "tmp", ignore_errors=True)
+            shutil.rmtree(work / "out", ignore_errors=True)
+            if spec.get("outdir"):
+                shutil.rmtree(spec["outdir"], ignore_errors=True)
 
 
 if __name__ == "__main__":
